@@ -589,12 +589,13 @@ Definition dist_owner (T : tables) (d : N) : N := index_of N.eqb d (t_dists T).
 Definition file_owner (T : tables) (name : string) : N := index_of String.eqb name (map fname (t_keys T)).
 
 Definition abs_state (T : tables) (E : env) (s : state) : dump :=
+  let names := map fname (t_keys T) in
   mkDump
     (sortN (map (fun p => (kix T (fst p), type_code T (snd p))) (idx s)))
     (map (fun p => (dist_owner T (fst p), kix T (snd p))) (sortN (bydist s)))
     (match farthest s with Some (f, fd) => Some (kix T f, dist_owner T fd) | None => None end)
     (map (fun p => (kix T (fst p), vix T (snd p))) (cache s))
-    (sortN (map (fun f => (file_owner T (fst f),
+    (sortN (map (fun f => (index_of String.eqb (fst f) names,
                            match key_of_fname (fst f) with
                            | Some k => match read_bytes E k (snd f) with Some v => vix T v | None => nf end
                            | None => nf
